@@ -2,10 +2,12 @@
     regenerated from /repo's current sources (Generated.v), are what C20's theorem assumes. Imported by PC20. *)
 From MowCli Require Import Base Generated.
 
-(** the shared store of the library: the three indirections of cli.go and the two sentinel
-    errors; none of them is assigned by any function of the library *)
+(** the shared store of the library: the three indirections of cli.go (package-level variables whose
+    initial value is an immutable constant-like value — the two sentinel errors — are not part of the
+    store: nothing can change them short of assigning them, which would be listed as a write); no
+    package-level variable is assigned, directly or through an index, a field or a pointer, by any
+    function of the library *)
 Lemma tie_package_state :
-  g_package_vars = [("exiter", "."); ("stdOut", "."); ("stdErr", "."); ("errHelpRequested", ".");
-                    ("errVersionRequested", ".")]%string
+  g_package_vars = [("exiter", "."); ("stdOut", "."); ("stdErr", ".")]%string
   /\ g_package_var_writes = [].
 Proof. split; reflexivity. Qed.
